@@ -3,7 +3,17 @@ extra trusted-base entries and assumptions recorded in the evidence."""
 
 GO_RUNTIME = "Go runtime and standard library (sync, channels, container/heap's callers, encoding/binary) assumed correct"
 
+IEEE = "for non-negative non-NaN float32 the order of values is the order of their bit patterns; scores are carried as bit patterns; floating-point rounding is not reasoned about"
+
 PROPS = {
+    "C01": dict(
+        module="Anndb.Props.C01",
+        engines=[dict(name="hnsw", quick=["exact=150", "wide=150"], thorough=["exact=2500", "wide=3000", "ops=160"])],
+        trusted=["model of index/hnsw.go (Model/Hnsw.lean) tied to the real index by exact whole-graph transcript equality in the order-independent regime (engine hnsw)",
+                 "space.Distance is a parameter `dist` of every theorem; the harness tabulates it with the real implementation"],
+        assumptions=[GO_RUNTIME, IEEE, "sequential use of the index (concurrency is C13)",
+                     "dataset-level clause (merge across partitions) is carried by C09's merge theorems and C10's disjoint ownership"],
+    ),
     "C19": dict(
         module="Anndb.Props.C19",
         engines=[dict(name="pq", quick=["hist=400"], thorough=["hist=8000", "ops=240"])],
